@@ -211,15 +211,16 @@ func audEventForOp(i int, o hop) audEvent {
 	case "open":
 		return buildAudEvent("LOGIN", i, seq, defaultAudFields("LOGIN", sesString(o.S), strconv.Itoa(pidValue(o.P)), i))
 	case "disp":
-		return buildAudEvent("CRED_DISP", i, seq, defaultAudFields("CRED_DISP", sesString(o.S), "777", i))
+		return buildAudEvent("CRED_DISP", i, seq, defaultAudFields("CRED_DISP", sesString(o.S), opPidString(o), i))
 	case "ev":
-		return buildAudEvent(o.T, i, seq, defaultAudFields(o.T, sesString(o.S), "778", i))
+		return buildAudEvent(o.T, i, seq, defaultAudFields(o.T, sesString(o.S), opPidString(o), i))
 	default: // noise
 		typ := "USER_ACCT"
 		if i%2 == 0 {
 			typ = "SYSCALL"
 		}
 		ses := ""
+		pid := "779"
 		switch o.T {
 		case "unset":
 			ses = "4294967295"
@@ -228,7 +229,15 @@ func audEventForOp(i int, o hop) audEvent {
 			}
 		case "unknown_ses":
 			ses = sesString(o.S)
+			pid = opPidString(o)
+			if i%4 == 2 {
+				typ = "USER_START"
+			}
+		case "login_unset":
+			typ, ses, pid = "LOGIN", "4294967295", strconv.Itoa(pidValue(o.P))
+		case "login_nosession":
+			typ, ses, pid = "LOGIN", "", strconv.Itoa(pidValue(o.P))
 		}
-		return buildAudEvent(typ, i, seq, defaultAudFields(typ, ses, "779", i))
+		return buildAudEvent(typ, i, seq, defaultAudFields(typ, ses, pid, i))
 	}
 }
